@@ -84,6 +84,117 @@ def _temporal(ctx, modname: str, cls: str, state_fn: str, fields: list[str]) -> 
         ctx.ob("STATE.call", f"{cls}.__reduce__", len(r) == 1 and nun(r[0].value).startswith("self.__reduce_ex__("), f"{[nun(x.value) for x in r]}", m.rel)
 
 
+def _temporal_tabulate(ctx) -> None:
+    """STATE-COMPLETE.tabulated (DateTime, Time, FixedTimezone): __reduce_ex__ / __reduce__ / __deepcopy__ / __getinitargs__ run by the
+    checker's interpreter on instance stubs (rules/wallstub.py); functools.partial is recorded.  Calling the reduce callable with
+    its arguments, and the deep copy itself, must give back every field, the very tzinfo object and the fold - for both folds,
+    an aware and a naive value, protocols 2 and 4."""
+    import datetime as _dt
+    from ..rules import minieval, wallstub
+    dm, tm, zm = pmod("datetime"), pmod("time"), pmod("tz.timezone")
+    part = lambda f, *a, **k: minieval.Stub(_partial=(f, a, k))       # noqa: E731
+
+    def rebuild(red):
+        if not (isinstance(red, tuple) and len(red) >= 2):
+            raise core.Unsupported("reduce does not return (callable, args)")
+        fn_, args = red[0], tuple(red[1])
+        kw = {}
+        while isinstance(fn_, minieval.Stub) and hasattr(fn_, "_partial"):
+            f2, a2, k2 = fn_._partial
+            args, kw, fn_ = tuple(a2) + args, {**k2, **kw}, f2
+        return fn_, args, kw
+    # DateTime
+    bad, n = [], 0
+    try:
+        w = wallstub.World(dm, "DateTime", extra=pmod("date").methods("Date"))
+        w.glob["$globals"]["functools"] = minieval.Stub(partial=part)
+        w.glob["$globals"]["copy"] = minieval.Stub(deepcopy=lambda v, memo=None: v, copy=lambda v: v)
+        for wall in (_dt.datetime(2021, 10, 31, 2, 30, 15, 123456), _dt.datetime(2024, 2, 29, 0, 0, 0)):
+            for fold in (0, 1):
+                foreign = w.other_zone("a tzinfo that is not a pendulum timezone")
+                for zone in (None, w.other_zone(None), foreign):
+                    x = w.datetime(wall, fold, zone=zone)
+                    if zone is foreign:
+                        vars(x)["tz"] = vars(x)["timezone"] = None       # DateTime.tz / .timezone answer None for a tzinfo that is not pendulum's
+                    elif zone is not None:
+                        vars(x)["tzinfo"] = vars(x)["tz"] = vars(x)["timezone"] = None       # a naive value
+                    for meth, args in (("__reduce_ex__", [2]), ("__reduce_ex__", [4]), ("__reduce__", []), ("__deepcopy__", [{}])):
+                        if meth not in w.meths:
+                            continue
+                        n += 1
+                        label = f"DateTime({wall.isoformat(' ')}, fold={fold}, {'aware' if zone is None else 'foreign tzinfo' if zone is foreign else 'naive'}).{meth}"
+                        got = w.call(x, meth, list(args))
+                        if meth != "__deepcopy__":
+                            fn_, a, kw = rebuild(got)
+                            if fn_ is not w.ctor:
+                                bad.append(f"{label}: the callable is not the instance's class")
+                                continue
+                            names = ["year", "month", "day", "hour", "minute", "second", "microsecond", "tzinfo"]
+                            f = dict(zip(names, a))
+                            f.update(kw)
+                            g = {"_wall": _dt.datetime(*[f.get(k, 0) for k in names[:7]]) if all(k in f for k in names[:3]) else None, "fold": f.get("fold", 0), "tzinfo": f.get("tzinfo")}
+                        else:
+                            g = vars(got) if isinstance(got, minieval.Obj) else {}
+                            g = {"_wall": g.get("_wall"), "fold": g.get("fold"), "tzinfo": None if (zone is not None and zone is not foreign and getattr(g.get("tzinfo"), "name", "") == "None") else g.get("tzinfo")}
+                        want_tz = vars(x)["tzinfo"]
+                        if g["_wall"] != wall:
+                            bad.append(f"{label}: rebuilds the fields {g['_wall']}")
+                        elif g["fold"] != fold:
+                            bad.append(f"{label}: rebuilds fold={g['fold']}")
+                        elif g["tzinfo"] is not want_tz:
+                            bad.append(f"{label}: rebuilds tzinfo={getattr(g['tzinfo'], 'name', g['tzinfo'])!r} instead of the instance's own tzinfo object")
+        ctx.ob("STATE-COMPLETE.tabulated", "DateTime.pickle/deepcopy", not bad, f"{n} evaluations: " + (f"wrong: {bad[:3]}" if bad else "fields, tzinfo object and fold come back"), dm.rel)
+        if not bad:
+            ctx.established(("STATE", "DEEPCOPY"), "DateTime.", "STATE-COMPLETE.tabulated")
+    except wallstub.ERRORS + (ValueError, minieval.Raised) as e:
+        ctx.unverified("STATE-COMPLETE.tabulated", "DateTime", f"outside the checker's interpreter: {type(e).__name__}: {e}", dm.rel)
+    # Time
+    bad, n = [], 0
+    try:
+        tw = wallstub.TimeWorld(tm)
+        tw.glob["$globals"]["functools"] = minieval.Stub(partial=part)
+        tzo = minieval.Stub(name="some tzinfo")
+        for t in (_dt.time(1, 2, 3, 4), _dt.time(23, 59, 59, 999999)):
+            for fold in (0, 1):
+                for tzinfo in (None, tzo):
+                    x = tw.time(t.hour, t.minute, t.second, t.microsecond, tzinfo, fold)
+                    for meth, args in (("__reduce_ex__", [2]), ("__reduce_ex__", [4]), ("__reduce__", [])):
+                        if meth not in tw.meths:
+                            continue
+                        n += 1
+                        label = f"Time({t}, fold={fold}, tzinfo={'set' if tzinfo else None}).{meth}"
+                        fn_, a, kw = rebuild(tw.call(x, meth, list(args)))
+                        if fn_ is not tw.ctor:
+                            bad.append(f"{label}: the callable is not the instance's class")
+                            continue
+                        f = dict(zip(["hour", "minute", "second", "microsecond", "tzinfo"], a))
+                        f.update(kw)
+                        if (f.get("hour", 0), f.get("minute", 0), f.get("second", 0), f.get("microsecond", 0)) != (t.hour, t.minute, t.second, t.microsecond):
+                            bad.append(f"{label}: rebuilds the fields {f}")
+                        elif f.get("fold", 0) != fold or f.get("tzinfo") is not tzinfo:
+                            bad.append(f"{label}: rebuilds fold={f.get('fold', 0)} tzinfo={f.get('tzinfo')!r}")
+        ctx.ob("STATE-COMPLETE.tabulated", "Time.pickle", not bad, f"{n} evaluations: " + (f"wrong: {bad[:3]}" if bad else "fields, tzinfo object and fold come back"), tm.rel)
+        if not bad:
+            ctx.established(("STATE",), "Time.", "STATE-COMPLETE.tabulated")
+    except wallstub.ERRORS + (ValueError, minieval.Raised) as e:
+        ctx.unverified("STATE-COMPLETE.tabulated", "Time", f"outside the checker's interpreter: {type(e).__name__}: {e}", tm.rel)
+    # FixedTimezone
+    try:
+        meths = zm.methods("FixedTimezone")
+        props = {k for k, f in meths.items() if any(core.dotted(d) == "property" for d in f.decorator_list)}
+        bad = []
+        for off, name in ((3600, "+01:00"), (-12600, "-03:30"), (0, "+00:00")):
+            o = minieval.Obj(_methods=meths, _props=props, _ctor=None, _natives={}, _offset=off, _name=name, _utcoffset=_dt.timedelta(seconds=off))
+            got = minieval.call(meths["__getinitargs__"], [o], {}, {"$globals": {"_datetime": minieval.Stub(timedelta=_dt.timedelta)}})
+            if tuple(got) != (off, name):
+                bad.append(f"FixedTimezone({off}, {name!r}).__getinitargs__() = {got!r}")
+        ctx.ob("STATE-COMPLETE.tabulated", "FixedTimezone.__getinitargs__", not bad, "; ".join(bad) if bad else "(offset, name) as given to the constructor", zm.rel)
+        if not bad:
+            ctx.established(("STATE",), "FixedTimezone.", "STATE-COMPLETE.tabulated")
+    except (core.Unsupported, KeyError, TypeError, AttributeError, ValueError) as e:
+        ctx.unverified("STATE-COMPLETE.tabulated", "FixedTimezone", f"outside the checker's interpreter: {type(e).__name__}: {e}", zm.rel)
+
+
 def _deepcopy_temporal(ctx) -> None:
     m = pmod("datetime")
     sites = recon.sites_in(m, ["DateTime.__deepcopy__"])
@@ -342,6 +453,7 @@ def _fixed_timezone(ctx) -> None:
 
 def run(ctx) -> None:
     ctx.explanation = EXPLANATION
+    ctx.step(_temporal_tabulate, ctx)
     ctx.step(_temporal, ctx, "datetime", "DateTime", "_getstate", F7)
     ctx.step(_temporal, ctx, "time", "Time", "_get_state", recon.TIME_F)
     ctx.step(_deepcopy_temporal, ctx)
